@@ -8,3 +8,37 @@ def D19(key, payload):
     """date-time check, a timestamp whose seconds field is 60."""
     m = re.match(r"C16-formats:date-time:\d{4}-\d\d-\d\d[Tt]\d\d:\d\d:60([.]\d+)?([Zz]|[+-]\d\d:\d\d)$", key)
     return bool(m) and "rejected" in str(payload.get("what", ""))
+
+
+def _schema_of_key(key):
+    import json
+    body = key.split(":", 1)[1]
+    if body.startswith("parse:"):
+        body = body[len("parse:"):]
+    body = body.split(" <- ")[0]
+    for suffix in (" [json]", " [python]", " [inner]"):
+        if body.endswith(suffix):
+            body = body[: -len(suffix)]
+    return json.loads(body)
+
+
+def _has_colliding_names(S):
+    from statham.schema.parser import _parse_attribute_name
+    if isinstance(S, dict):
+        props = S.get("properties")
+        if isinstance(props, dict):
+            names = [_parse_attribute_name(k) for k in props]
+            if len(set(names)) < len(names):
+                return True
+        return any(_has_colliding_names(v) for v in S.values())
+    if isinstance(S, list):
+        return any(_has_colliding_names(v) for v in S)
+    return False
+
+
+def D10(key, payload):
+    """pipeline-style keys whose schema has sibling property names collapsing onto one attribute name."""
+    try:
+        return _has_colliding_names(_schema_of_key(key))
+    except Exception:
+        return False
